@@ -55,6 +55,8 @@ type DeclCfg struct {
 	DupTags      bool // single-valued tags are sometimes given twice (the last one counts)
 	ManyAliases  bool // commands with several aliases sharing a prefix
 	BaseMulti    bool // base: tags also on slices and maps of integers
+	BigGroup     bool // now and then one group with more than 100 options
+	CaseLongs    bool // long names that differ only in case
 }
 
 var (
@@ -174,6 +176,7 @@ func (g *declGen) opt() *OptSpec {
 	}
 	if cfg.NoIni && r.Chance(1, 12) {
 		o.NoIni = true
+		o.NoIniText = r.Pick([]string{"yes", "true", "false", "0", "no", "1"}) // any non-empty value means no-ini
 	}
 	if cfg.IniName && r.Chance(1, 6) {
 		o.IniName = "ini_" + w + strconv.Itoa(n)
@@ -368,6 +371,22 @@ func genDecl(r *Rng, cfg *DeclCfg) *DeclSpec {
 	}
 	d.Root = g.group("Application Options", 0)
 	d.Root.Namespace, d.Root.EnvNamespace, d.Root.Hidden = "", "", false
+	if cfg.BigGroup && r.Chance(1, 150) {
+		big := &GroupSpec{Name: "Big"}
+		for i := 0; i < 115; i++ {
+			g.nOpt++
+			big.Opts = append(big.Opts, &OptSpec{Field: fmt.Sprintf("FBig%d", g.nOpt), Kind: r.Pick([]string{"int", "string", "bool"}), Long: fmt.Sprintf("big%03d", g.nOpt), Desc: "one of many"})
+		}
+		d.Groups = append(d.Groups, big)
+	}
+	if cfg.CaseLongs && r.Chance(1, 6) && len(d.Root.Opts) > 0 {
+		// the same long name again in other case (a different option to the library)
+		o := d.Root.Opts[0]
+		if o.Long != "" {
+			g.nOpt++
+			d.Root.Opts = append(d.Root.Opts, &OptSpec{Field: fmt.Sprintf("FCase%d", g.nOpt), Kind: o.Kind, Long: strings.ToUpper(o.Long[:1]) + o.Long[1:], Desc: o.Desc})
+		}
+	}
 	d.UseNewParser = r.Chance(1, 3)
 	ng := r.Range(0, cfg.MaxGroups)
 	for i := 0; i < ng; i++ {
